@@ -271,3 +271,70 @@ pub fn butterfly_cases(p: &'static Params, pk0: &PkCtx, pkb: &Arc<Vec<u8>>) -> V
     }
     out
 }
+
+/// number of index bytes SampleInBall (Algorithm 29) squeezes for this commitment hash (tau plus the rejected candidates)
+pub fn sib_bytes(tau: usize, c_tilde: &[u8]) -> usize {
+    use sha3::digest::{ExtendableOutput, Update, XofReader};
+    let mut x = sha3::Shake256::default();
+    x.update(c_tilde);
+    let mut rd = x.finalize_xof();
+    let mut s = [0u8; 8];
+    rd.read(&mut s);
+    let mut n = 0usize;
+    for i in (256 - tau)..256 {
+        let mut j = [0u8; 1];
+        rd.read(&mut j);
+        n += 1;
+        while usize::from(j[0]) > i {
+            rd.read(&mut j);
+            n += 1;
+        }
+    }
+    n
+}
+
+/// D4b: commitment hashes selected by exhaustive search for the LONGEST SampleInBall rejection runs
+/// (witnesses/sample_in_ball_long.json: hash does not match, FIPS 204 rejects; witnesses/sib_valid.json: messages for which
+/// the zero-t1 forgery with rho = 42^32, z = small_z(9) is valid, FIPS 204 accepts). Returns (cases, machinery errors).
+pub fn sib_long_cases(p: &'static Params, pk0: &PkCtx, pkb: &Arc<Vec<u8>>) -> (Vec<VCase>, Vec<String>) {
+    let mut out = Vec::new();
+    let mut errs = Vec::new();
+    let root = crate::report::verif_root();
+    let z = small_z(p, 9);
+    let load = |name: &str| -> Vec<serde_json::Value> {
+        std::fs::read_to_string(format!("{root}/witnesses/{name}"))
+            .ok()
+            .and_then(|t| serde_json::from_str::<serde_json::Value>(&t).ok())
+            .and_then(|v| v["witnesses"].as_array().cloned())
+            .unwrap_or_default()
+            .into_iter()
+            .filter(|w| w["set"].as_u64() == Some(p.id as u64))
+            .collect()
+    };
+    for w in load("sample_in_ball_long.json") {
+        let ct = refmodel::unhex(w["c_tilde"].as_str().unwrap_or(""));
+        let n = w["index_bytes"].as_u64().unwrap_or(0) as usize;
+        if ct.len() != p.ctilde_len() || sib_bytes(p.tau, &ct) != n {
+            errs.push(format!("sample_in_ball_long.json: ML-DSA-{} witness does not squeeze the recorded {n} index bytes", p.id));
+            continue;
+        }
+        let mut s = ct;
+        for zi in &z {
+            s.extend(refmodel::bit_pack(zi, p.gamma1 - 1, p.gamma1));
+        }
+        s.extend(empty_hint_section(p));
+        out.push(VCase { class: format!("D4b:ctilde-with-{n}-SampleInBall-index-bytes:hash-mismatch"), pk: pkb.clone(), mode: Mode::Pure, msg: b"sib".to_vec(), ctx: vec![], sig: s, intent: Some(false) });
+    }
+    for w in load("sib_valid.json") {
+        let msg = w["msg"].as_str().unwrap_or("").as_bytes().to_vec();
+        let n = w["index_bytes"].as_u64().unwrap_or(0) as usize;
+        let mp = format_message(Mode::Pure, &msg, b"").unwrap();
+        let sig = refmodel::forge_zero_t1(pk0, &mp, &z, &vec![POLY0; p.k], &empty_hint_section(p));
+        if sib_bytes(p.tau, &sig[..p.ctilde_len()]) != n {
+            errs.push(format!("sib_valid.json: ML-DSA-{} message {:?} does not give the recorded {n} index bytes (was the witness made for another public key?)", p.id, w["msg"]));
+            continue;
+        }
+        out.push(VCase { class: format!("D4b:valid-forgery-with-{n}-SampleInBall-index-bytes"), pk: pkb.clone(), mode: Mode::Pure, msg, ctx: vec![], sig, intent: Some(true) });
+    }
+    (out, errs)
+}
